@@ -52,7 +52,8 @@ seen = set()
 src = []
 for f in [os.path.join(V, "known_findings.json")] + sorted(glob.glob(os.path.join(V, "known_findings.d", "*.json"))):
     if os.path.exists(f):
-        src += json.load(open(f)).get("findings", [])
+        d = json.load(open(f))
+        src += d.get("findings", []) + d.get("interpretations", [])
 for k in src + EXTRA:
     if k["id"] in seen:
         continue
@@ -74,7 +75,7 @@ for k in src + EXTRA:
         base.update(status="open", what=what)
         findings.append(base)
     else:
-        base.update(status="interpretation", note=st, what=what)
+        base.update(status="interpretation", note=k.get("note", st), what=what)
         interp.append(base)
 findings.sort(key=lambda x: (x["property"], x["status"] != "open", x["id"]))
 json.dump({"_comment": "open: printed as KNOWN-FINDING by the check of that property while the recorded witness region still fails; fixed: suppresses nothing (the check reports the violation again if it returns); interpretations: behaviour judged outside the property as worded, recorded with witnesses, never suppressing anything",
